@@ -14,7 +14,9 @@ LEVEL_NOTE = ("proof for the three modelled readers (single Newick via the C01 m
 RULE = ("cases = (format, bytes) for the five formats newick | multi (multi-Newick stream) | nexus | phyloxml | nextstrain. "
         "Valid documents are generated from random trees (2..12 tips, lengths/supports/inner names/comments): Newick text; "
         "multi-Newick streams with 1..6 trees laid out one per line, over several lines, several per line, with blank and "
-        "whitespace-only lines, trailing blanks, CRLF, no final newline, lines longer than bufio's 4096-byte buffer; Nexus "
+        "whitespace-only lines, trailing blanks, CRLF, no final newline, lines longer than bufio's 4096-byte buffer, streams of "
+        "5..40 KB whose trees (150..400 tips) are wrapped at random commas so that statements straddle the buffer refills; Nexus "
+        "(several TREE statements under one name included) "
         "with TAXA (DIMENSIONS NTAX, TAXLABELS), TREES (TRANSLATE table, [&R] comments, several trees), DATA/CHARACTERS "
         "(DIMENSIONS, FORMAT DATATYPE/MISSING/GAP, MATRIX) and unknown blocks/commands, comments everywhere, mixed case "
         "keywords; PhyloXML (name / taxonomy scientific_name / code, branch_length, confidence, several phylogenies); "
@@ -100,6 +102,19 @@ def gen_newick(rng):
         s = s + "\n" + nwk(rng, rand_tree(rng))
     return s
 
+def gen_multi_big(rng):
+    """a stream of 5..40 KB whose trees are wrapped over several physical lines at random commas (statements straddle the
+    refills of bufio's 4096-byte buffer)"""
+    k = rng.choice([2, 3, 4])
+    g = Gen(rng)
+    out = []
+    p = rng.choice([0.02, 0.05, 0.1, 0.3])
+    for _ in range(k):
+        t = g.tree(ntips=rng.randint(150, 400), maxdeg=4, lenmode="all", supmode="mixed", inner_names=False, comments=False)
+        s = nwk(rng, t)
+        out.append("".join(ch + ("\n" if ch == "," and rng.random() < p else "") for ch in s))
+    return rng.choice(["\n", "\r\n"]).join(out) + rng.choice(["\n", ""])
+
 def gen_multi(rng):
     k = rng.choice([1, 2, 2, 3, 4, 6])
     trees = [nwk(rng, rand_tree(rng), comments=rng.choice([0, 0, 0.2])) for _ in range(k)]
@@ -148,6 +163,7 @@ def gen_nexus(rng):
     ntrees = rng.choice([1, 1, 2, 3])
     trees = [rand_tree(rng, names=list(names)) for _ in range(ntrees)]
     translate = rng.random() < 0.35
+    dupname = rng.choice(["tree0", "t", "1"]) if (ntrees > 1 and rng.random() < 0.3) else None   # several TREE statements under one name
     parts = ["#NEXUS" if rng.random() < 0.9 else rng.choice(["#nexus", "#Nexus"]), NL]
     parts.append(nexus_comment(rng))
     blocks = []
@@ -169,7 +185,7 @@ def gen_nexus(rng):
         tb += [sep.join(items), rng.choice(["\n  ;", ";", "\n;"]), NL]
     for i, t in enumerate(trees):
         s = nwk(rng, renamed(t, idx) if translate else t, comments=rng.choice([0, 0, 0.2]))
-        tb += ["  ", kw("TREE"), " ", rng.choice(["tree%d" % i, "t", "1", "PAUP_1"]), rng.choice([" = ", "=", " =", "= "]),
+        tb += ["  ", kw("TREE"), " ", (dupname if dupname else rng.choice(["tree%d" % i, "t", "1", "PAUP_1"])), rng.choice([" = ", "=", " =", "= "]),
                rng.choice(["", "", "[&R] ", "[&U]", "[x]\n "]), s[:-1], rng.choice(["", " "]), ";", NL]
     tb += [kw("END"), ";", NL]
     blocks.append("".join(tb))
@@ -556,6 +572,8 @@ def deep(rng, fmt, depth):
     return '{"version":"v2","tree":%s}' % s
 
 FIXED = [
+    ("nexus", "#NEXUS\nBEGIN TREES;\nTREE t = (a,b);\nTREE t = (c,d);\nTREE u = (e,f);\nTREE t = (g,h);\nEND;\n"),
+    ("nexus", "#NEXUS\nBEGIN TREES;\nTREE tree0 = (a,b);\nEND;\nBEGIN TREES;\nTREE tree0 = (c,d);\nEND;\n"),
     # the three defects of the unchanged code (fixed in /repo by 114996a, fcf4ced, 4b7059e) and their neighbours
     ("multi", " "), ("multi", "\t"), ("multi", " \n"), ("multi", "(a,b);\n \n(c,d);\n"), ("multi", "\n"), ("multi", ""), ("multi", ";"),
     ("multi", " ;"), ("multi", "; "), ("multi", "(a,b); \n"), ("multi", "(a,b);\n(c,d)"), ("multi", "(a,b);(c,d);\n(e,f);\n"),
@@ -617,6 +635,7 @@ def gen(rng, tier):
     for _ in range({"quick": 250, "thorough": 20000, "search": 150}[tier]):
         out.append(case("nextstrain", gen_json_struct(rng), "json-struct"))
         out.append(case("phyloxml", gen_xml_struct(rng), "xml-struct"))
+    bigs = [case("multi", gen_multi_big(rng), "bigwrap") for _ in range({"quick": 10, "thorough": 600, "search": 5}[tier])]
     fmts = ["newick", "multi", "multi", "nexus", "nexus", "nexus", "phyloxml", "nextstrain"]
     for _ in range(n):
         fmt = rng.choice(fmts)
@@ -647,4 +666,6 @@ def gen(rng, tier):
     # one per chunk of 200 cases (the runner gives each chunk its own worker and judge process)
     for j, dc in enumerate(deeps):
         out.insert(min(len(out), j * 200 + 1), dc)
+    for j, bc in enumerate(bigs):
+        out.insert(min(len(out), j * 200 + 7), bc)
     return out
